@@ -21,6 +21,33 @@ def rep {α : Type} (n : Nat) (p : P α) : P (List α) := do
     out := out.push (← p)
   pure out.toList
 
+/-- a candidate: a number `t` (the string naming template `t`) or `!i` / `!n` / `!u` / `!b` (a
+    value that is not a string) -/
+def pCand : P Cand := do
+  let t ← tok
+  match t.toNat? with
+  | some n => pure (some n)
+  | none => if t.startsWith "!" then pure none else throw "candidate expected"
+
+/-- `kind k cand..`: the value behind include / import / from-import.  The kind says which kind
+    of `Value` the harness' expression evaluates to (see `Arg` in `harness/src/bin/c06.rs`). -/
+def pArg : P Arg := do
+  let kind ← tok
+  let k ← num
+  let cands ← rep k pCand
+  match kind with
+  | "str" | "sc" =>
+    match cands with
+    | [c] => pure (.single c)
+    | _ => throw "one candidate expected"
+  | "lit" | "tup" | "ctx" => pure (.object .seq (some cands))
+  | "slice" | "rev" | "lazy" | "once" => pure (.object .iterable (some cands))
+  | "rep" => pure (.object .iterable (some (cands ++ cands)))
+  | "map" | "ctxmap" => pure (.object .map (some cands))
+  | "pobj" => pure (.object .plain (some cands))
+  | "plain" => pure (.object .plain none)
+  | other => throw s!"bad argument kind {other}"
+
 mutual
 partial def pItem : P Item := do
   match (← tok) with
@@ -33,13 +60,21 @@ partial def pItem : P Item := do
   | "i" => do
     let ign ← num; let k ← num
     let names ← rep k num
-    pure (.incl names (ign == 1))
+    -- one name is printed as a string (literal or variable), anything else as a list literal
+    match names with
+    | [t] => pure (.incl (.name t) (ign == 1))
+    | _ => pure (.incl (.names names) (ign == 1))
+  | "ia" => do
+    let ign ← num
+    pure (.incl (← pArg) (ign == 1))
+  | "impa" => do let a ← pArg; pure (.importAs a (← num))
+  | "froma" => do let a ← pArg; let n ← num; pure (.fromImport a n (← num))
   | "v" => pure (.emitVar (← num))
   | "set" => do let v ← num; pure (.setVar v (← tok))
   | "mac" => do let v ← num; pure (.defMacro v (← tok))
   | "macv" => do let m ← num; pure (.defMacroV m (← num))
-  | "imp" => do let t ← num; pure (.importAs t (← num))
-  | "from" => do let t ← num; let n ← num; pure (.fromImport t n (← num))
+  | "imp" => do let t ← num; pure (.importAs (.name t) (← num))
+  | "from" => do let t ← num; let n ← num; pure (.fromImport (.name t) n (← num))
   | "attr" => do let v ← num; pure (.emitAttr v (← num))
   | "keys" => pure (.emitKeys (← num))
   | "call" => pure (.callVar (← num))
